@@ -42,6 +42,7 @@ pub mod rustix_fs {
             has(oflags.bits, libc::O_NOCTTY),                             // [C05.rustix_openat.noctty]
         ensures
             r matches Ok(fd) ==> kflags(fd.id()) == oflags.bits,
+            r matches Ok(fd) ==> (has(oflags.bits, libc::O_CLOEXEC) ==> cloexec(fd.id())),
             r matches Ok(fd) ==> opened_from(fd.id(), dirfd.fd_id(), path.pview()),
             // A1 walk-down
             r matches Ok(fd) ==> (has(oflags.bits, libc::O_NOFOLLOW) && single_component(path.pview()) && !is_dotdot(path.pview())
@@ -126,11 +127,27 @@ pub fn sys_openat2(dirfd: BorrowedFd<'_>, path: &CStringK, how: &syscalls::OpenH
     ensures
         r >= 0 ==> fresh_kernel_fd(r as int) && last_openat2(r as int, dirfd.id@, path@, *how),
 { unimplemented!() }
+/// the same call with the ledger of raw descriptors made explicit (C11: nothing the kernel returned is dropped unowned)
+#[verifier::external_body]
+pub fn sys_openat2_ledger(ledger: &mut Ghost<Seq<int>>, dirfd: BorrowedFd<'_>, path: &CStringK, how: &syscalls::OpenHow, size: usize) -> (r: i32)
+    requires
+        valid_dirfd(dirfd.id@),
+    ensures
+        r >= 0 ==> fresh_kernel_fd(r as int) && final(ledger)@ == old(ledger)@.push(r as int),
+        r < 0 ==> final(ledger)@ == old(ledger)@,
+{ unimplemented!() }
+impl OwnedFd {
+    #[verifier::external_body]
+    pub fn from_raw_fd_ledger(fd: i32, ledger: &mut Ghost<Seq<int>>) -> (r: OwnedFd)
+        requires fd >= 0, fresh_kernel_fd(fd as int), old(ledger)@.len() > 0, old(ledger)@.last() == fd as int,
+        ensures final(ledger)@ == old(ledger)@.drop_last(),
+    { unimplemented!() }
+}
 pub uninterp spec fn last_openat2(fd: int, dirfd: int, path: Seq<u8>, how: syscalls::OpenHow) -> bool;
 /// A4: what the kernel guarantees about the object openat2(dirfd, path, how) returned
 pub open spec fn a4_facts(id: int, d: int, p: Seq<u8>, how: syscalls::OpenHow) -> bool {
     kflags64(id) == how.flags
-    && (how.flags & 0o2000000u64 == 0o2000000u64 ==> has(kflags(id), libc::O_CLOEXEC))
+    && (how.flags & 0o2000000u64 == 0o2000000u64 ==> has(kflags(id), libc::O_CLOEXEC) && cloexec(id))
     && resolve_bits_of(id) == how.resolve
     && (how.resolve & libc::RESOLVE_IN_ROOT == libc::RESOLVE_IN_ROOT && lineage(d) ==> lineage(id))
     && (beneath_noxdev(how.resolve) ==> mnt_of(id) == mnt_of(d))
